@@ -336,12 +336,15 @@ def oracle_discipline(cls):
             a = K(b"pw", params=params, entropy_f=ent)
             if calls:
                 return (True, "constructor drew entropy on %s" % nm)
-            a.start()
+            own = a.start()
             n1 = len(calls)
             s = a.serialize()
             b = K.from_serialized(s, params=params)
             peer = K if cls == "S" else {"A": sp.SPAKE2_B, "B": sp.SPAKE2_A}[cls]
-            pm = peer(b"pw", params=params, entropy_f=lambda n: bytes(n - 1) + b"\x07").start()
+            for y_ in (7, 8, 9, 3):         # a peer element different from the own one (they can coincide on an 11-element group)
+                pm = peer(b"pw", params=params, entropy_f=lambda n, y_=y_: bytes(n - 1) + bytes([y_])).start()
+                if pm[1:] != own[1:]:
+                    break
             a.finish(pm)
             b.finish(pm)
         finally:
